@@ -156,7 +156,9 @@ def run_grammar(tier='quick', only=None):
         nullable = new_nullable
     # final V1 pass of the productions whose obligations depend on non-nullability of callees
     nonnull = set(prods) - nullable
-    redo = sorted(n for n, r in results.items() if n in names and r['status'] == 'ok' and any(p.get('v1_bad') for p in r['paths']))
+    # (the *_incomplete start symbols too: whether they can fail depends on loops over sub-parsers that provably consume)
+    redo = sorted(n for n, r in results.items() if n in names and r['status'] == 'ok' and
+                  (any(p.get('v1_bad') for p in r['paths']) or (n.endswith('_incomplete') and any(p['outcome'] == 'ok' and not p['ok'] for p in r['paths']))))
     if redo:
         results.update(_round(redo, prods, summaries, nonnull, max_paths, time_cap, hard))
         rounds.append({'round': 'v1-with-nonnullability', 'analysed': len(redo)})
